@@ -2,14 +2,27 @@ import Glom.Spec.C05
 /-
   C05 — Error messages carry a faithful target-spec trace down to the failing spec.  (partial)
 
-  Property theorems about the bookkeeping algorithm (`_glom`'s exception handler,
-  `chain_child`, `_unpack_stack`, `_format_trace_value`), for every frame store,
-  every event and every width.  *Partial*: that the rendered text satisfies all
-  four clauses of `checkC05` for every evaluation is validated on every run by
-  evaluating `checkC05` on the model's and on the implementation's text
-  (thousands of recorded evaluations), not proved for all event lists; `repr`
-  of arbitrary objects and the Python traceback lines after the trace are
-  Python's.
+  This file: local property theorems about the bookkeeping algorithm (`_glom`'s exception
+  handler, `chain_child`, `_unpack_stack`, `_format_trace_value`), for every frame store, every
+  event and every width.
+
+  The structural theorems about *whole evaluations* are in Glom/Props/C05Spine.lean: for every
+  well-formed evaluation tree (domain membership of every recorded real evaluation is checked by
+  the driver) the frame store after `replay` is given in closed form (`c05_frames`, including the
+  NO_PYFRAME walk), the rows of `_unpack_stack` from any frame are `rowsAt` (`c05_unpack_rows`),
+  and the rows from the root call (and from every branch that is shown last where the linear
+  descent stops) follow the path of the root error: first row = root call, the reference spine
+  (`spine (callsOf evs) e`) occurs among the rows in evaluation order, the extra rows are completed
+  earlier chain steps, exactly one row shows the root error and it is the innermost call of the
+  listed path, the branches of a row are its frame's CHILD_ERRORS (`c05_spine`, `c05_spine_from`,
+  `c05_first_row`, `c05_branches`); clause "the last row is the call that raised" holds only in
+  part (`c05_last_row_partial`, `c05_last_row_counterexample`).
+
+  *Partial*: the lift from rows to the rendered text (that `formatTrace`'s output satisfies the
+  four clauses of `checkC05`) is not proved; it is validated on every run by evaluating
+  `checkC05` on the model's and on the implementation's text (thousands of recorded evaluations,
+  the model reproducing the real text character for character).  `repr` of arbitrary objects and
+  the Python traceback lines after the trace are Python's.
 -/
 set_option linter.unusedSimpArgs false
 namespace Glom.Props.C05
